@@ -363,11 +363,15 @@ func constructs(prog ast.Node) string {
 
 // one program through both evaluators; returns (impl, model observation, parsed tree, in-domain)
 func (r *runner) both(src string) (implRes, string, ast.Node, bool) {
+	return r.bothMode(src, true)
+}
+
+func (r *runner) bothMode(src string, noReg bool) (implRes, string, ast.Node, bool) {
 	prog, ok := parseProgram(src)
 	if !ok {
 		return implRes{}, "", nil, false
 	}
-	impl := runImpl(src, true)
+	impl := runImpl(src, noReg)
 	mo := "SKIP no-model"
 	if r.mp != nil {
 		mo = r.mp.ask(caseLine(src, prog))
@@ -376,7 +380,11 @@ func (r *runner) both(src string) (implRes, string, ast.Node, bool) {
 }
 
 func (r *runner) disagree(src string) (bool, string) {
-	impl, mo, _, ok := r.both(src)
+	return r.disagreeMode(src, true)
+}
+
+func (r *runner) disagreeMode(src string, noReg bool) (bool, string) {
+	impl, mo, _, ok := r.bothMode(src, noReg)
 	if !ok || strings.HasPrefix(mo, "SKIP") || mo == "TIMEOUT" {
 		return false, ""
 	}
@@ -443,6 +451,10 @@ func (r *runner) one(src string, kind string, feats map[string]bool) {
 		return
 	}
 	r.nCompared++
+	if mo == impl.obs && dflt.obs != mo && dflt.val != "timeout" {
+		// the DEFAULT configuration (registers on) disagrees with the reference although the plain-variable run agrees
+		r.regDisagreement(src, impl, dflt, mo)
+	}
 	if mo == impl.obs {
 		c.Case(line, impl.obs)
 		// non-trivial: the program printed something or produced a container / error, through >= 3 distinct constructs
@@ -475,10 +487,45 @@ func (r *runner) one(src string, kind string, feats map[string]bool) {
 	c.Case(line, impl.obs)
 }
 
+// The default configuration keeps integer parameters and counted-loop variables in registers.  Its result must be
+// the reference's too.  Three recorded limitations of the register mode (C05's findings, visible as an evaluator
+// error with registers on) get their own signatures; anything else is shrunk and signed by construct.
+func (r *runner) regDisagreement(src string, off, on implRes, mo string) {
+	c := r.c
+	if on.class == "E" {
+		kind := ""
+		switch {
+		case strings.Contains(on.val, "register assignment of non integer"):
+			kind = "reg-assign-nonint"
+		case strings.Contains(on.val, "not a var REGISTER"):
+			kind = "reg-name-as-inner-loopvar"
+		case strings.Contains(on.val, "identifier not found"):
+			kind = "reg-name-not-bound"
+		}
+		if kind != "" {
+			c.Fail("registers-on:"+kind+":on=error", "EVAL "+Hx([]byte(src)),
+				fmt.Sprintf("registers on: error %q; registers off and reference: %s", on.val, clip(mo, 120)))
+			return
+		}
+	}
+	pair := classPair(on, mo)
+	small := src
+	if r.shrunk < 20 {
+		r.shrunk++
+		small = r.shrinkMode(src, pair, false)
+	}
+	sprog, _ := parseProgram(small)
+	simpl, smo, _, _ := r.bothMode(small, false)
+	c.Fail("registers-on:"+constructs(sprog)+":"+pair, "EVAL "+Hx([]byte(small)),
+		fmt.Sprintf("program %q with the default settings (registers on): %s (%s), reference %s; found as %q", small, simpl.obs, simpl.val, smo, clip(src, 300)))
+}
+
 // ---------------------------------------------------------------------------------------------------
 // shrinking on the real syntax tree: statement deletion, sub-expression hoisting, literal simplification.
 // A candidate is kept when it still parses and still disagrees with the same outcome class pair.
-func (r *runner) shrink(src, pair string) string {
+func (r *runner) shrink(src, pair string) string { return r.shrinkMode(src, pair, true) }
+
+func (r *runner) shrinkMode(src, pair string, noReg bool) string {
 	best := src
 	budget := 400
 	for round := 0; round < 30; round++ {
@@ -496,7 +543,7 @@ func (r *runner) shrink(src, pair string) string {
 				continue
 			}
 			budget--
-			if dis, p := r.disagree(cand); dis && p == pair {
+			if dis, p := r.disagreeMode(cand, noReg); dis && p == pair {
 				best = cand
 				improved = true
 				break
@@ -725,6 +772,12 @@ var corpus = []string{
 	`m={9223372036854775808.0:"big", 1:"one", 9223372036854775807:"max"}; for kv=m{print(kv.value,"")}; first(m).value`,
 	`[(-9223372036854775807-1) >= -9223372036854775808.0, (-9223372036854775807-1) > -9223372036854775808.0, -9223372036854777856.0 < (-9223372036854775807-1), 9223372036854774784.0 < 9223372036854775807, 9223372036854777856.0 > 9223372036854775807]`,
 	`[9007199254740993 > 9007199254740992.0, 9007199254740993 == 9007199254740992.0, 9007199254740993 < 9007199254740994.0, [9007199254740993] <= [9007199254740992.0], -9007199254740993 < -9007199254740992.0]`,
+	`id = x => x; f = func(n) { n + id(n = 5) }; println(f(1))`,
+	`id = x => x; g = func(n) { r = 0; for i = n { r = r + (i * id(i = i + 1)) }; r }; println(g(4))`,
+	`id = x => x; h = func(a, b) { [a - id(a = b), a] }; println(h(10, 3))`,
+	`f = func(n) { n + (n = 5) }; [f(1), func(n){ n * -(n = 3) }(2), func(n){ [n, n = 7, n] }(1)]`,
+	`func f(n){n="a";n};f(1)`, `for i=3{i="x"};1`, `func f(n){for n=0:3{};n};f(7)`,
+	`for i=3{};i`, `func g(){i};for i=3{print(g())}`,
 	`for c = "a\xffb" { print(len(c)) }`, `s="\xffz"; println(len(first(s)), len(rest(s)))`, `rest("a\xffb")`, `rest("\xc3\xa9")`,
 	`for c="\xf0\x9f\x98\x80\xed\xa0\x80\xc0\xafz\xe2\x82"{print(len(c),"")}`, `[rest("\xf4\x90\x80\x80"), first("\xe0\x9f\xbf"), first("\xe2\x82\xacx"), rest("\xe2\x82z")]`,
 	`print(["\x80a\xc3"])`,
@@ -976,9 +1029,9 @@ func runC01(c *Ctx) {
 		r.one(src, "factory", g.feats)
 	}
 	// int/float comparisons at the edges of int64 and of the 53-bit mantissa; variadic calls with nested last arguments
-	nedge := 2500
+	nedge := 3000
 	if c.Thorough() {
-		nedge = 20000
+		nedge = 24000
 	}
 	for i := 0; i < nedge; i++ {
 		g := newGen(c.R, false)
